@@ -359,6 +359,50 @@ def exception_cloning(ctx, prop):
     ctx.floor(rule, n, 3, 'exception classes')
 
 
+def step_failures_escape(ctx, prop):
+    """An unhandled failure leaves step() as an exception of the failure's own class.  A handler around a
+    step() call may therefore name only the kernel's stop signal; any other class it names (EmptySchedule,
+    Exception, ...) is also a class a failed event may carry, and catching it makes run() return or go on
+    silently.  A handler that ends in a bare `raise` passes the failure on and is accepted."""
+    rule = prop + '.W.step-handlers'
+    ALLOWED = {'StopSimulation'}
+    n = 0
+    for f in ctx.repo.all_functions():
+        if not f.module.name.startswith('onl.sim'):
+            continue
+        for node in walk_local(f.node):
+            if not isinstance(node, ast.Try):
+                continue
+            calls = [c for st in node.body for c in ast.walk(st)
+                     if isinstance(c, ast.Call) and isinstance(c.func, ast.Attribute) and c.func.attr == 'step']
+            if not calls:
+                continue
+            n += 1
+            for h in node.handlers:
+                if h.body and isinstance(h.body[-1], ast.Raise) and h.body[-1].exc is None:
+                    ctx.ob(rule, True)
+                    continue
+                if h.type is None:
+                    names = ['<bare>']
+                elif isinstance(h.type, ast.Tuple):
+                    names = [ast.unparse(e) for e in h.type.elts]
+                else:
+                    names = [ast.unparse(h.type)]
+                bad = [x for x in names if x.split('.')[-1] not in ALLOWED]
+                ctx.ob(rule, not bad)
+                if bad:
+                    ctx.violation(rule, '%s::%s' % (f.module.relpath, f.qualname), 'handler for %s around step()' % ','.join(bad),
+                                  'a handler for %s encloses a step() call: the copy step() raises for an unhandled failed event of '
+                                  'that class is swallowed here, so the failure is lost' % ', '.join(bad),
+                                  where='%s:%d' % (f.module.relpath, h.lineno))
+                else:
+                    ctx.sample(rule, '%s::%s' % (f.module.relpath, f.qualname), 'handler around step() names only %s' % names)
+    steps = sum(1 for f in ctx.repo.all_functions() if f.module.name.startswith('onl.sim') for c in walk_local(f.node)
+                if isinstance(c, ast.Call) and isinstance(c.func, ast.Attribute) and c.func.attr == 'step')
+    ctx.ob(rule, True, steps)
+    ctx.floor(rule, steps, 1, 'step() call sites in the kernel')
+
+
 def interruption_sites(ctx, prop):
     rule = prop + '.W.interruption'
     n = 0
